@@ -399,4 +399,28 @@ theorem textMode_plain (cs cur : List Char) (esc : Bool) (h : NoBrace cs) :
     rw [ih (cur ++ [c]) (fun d hd => h d (by simp [hd]))]
     simp
 
+/-- No hole of the literal carries `#[emit::fmt]` flags. -/
+def NoFlags (parts : List MPart) : Prop := ∀ l f, MPart.hole l f ∈ parts → f = none
+
+theorem noFmt_toParts (parts : List MPart) (h : NoFlags parts) : NoFmt (toParts parts) := by
+  unfold toParts
+  generalize 0 = i
+  induction parts generalizing i with
+  | nil => intro l f hm; simp [toPartsFrom] at hm
+  | cons p ps ih =>
+    have h' : NoFlags ps := fun l f hm => h l f (by simp [hm])
+    cases p with
+    | text t =>
+      intro l f hm
+      simp only [toPartsFrom, List.mem_cons, reduceCtorEq, false_or] at hm
+      exact ih h' (i + 1) l f hm
+    | hole l0 f0 =>
+      have hf : f0 = none := h l0 f0 (by simp)
+      subst hf
+      intro l f hm
+      simp only [toPartsFrom, Option.map_none, List.mem_cons, Part.hole.injEq] at hm
+      rcases hm with ⟨_, rfl⟩ | hm
+      · rfl
+      · exact ih h' (i + 1) l f hm
+
 end EmitModel.TemplateMacro
